@@ -41,11 +41,12 @@ static zckDL *dls[NSLOT];
 static zckRange *ranges[NSLOT];
 static int sinks[NSLOT];          /* fd receiving bytes returned by read-like calls */
 static const char *case_id = "";
-static int ev_i = 0;
+static __thread int ev_i = 0;
+static __thread const char *thr_tag = "";
 
 /* ---------------------------------------------------------------- events */
-static char evbuf[1 << 20];
-static size_t evlen;
+static __thread char evbuf[1 << 18];
+static __thread size_t evlen;
 static void ev_raw(const char *s) {
     size_t l = strlen(s);
     if(evlen + l < sizeof(evbuf)) { memcpy(evbuf + evlen, s, l); evlen += l; }
@@ -53,7 +54,7 @@ static void ev_raw(const char *s) {
 static void ev_begin(const char *op) {
     evlen = 0;
     char tmp[256];
-    snprintf(tmp, sizeof tmp, "{\"case\":\"%s\",\"i\":%d,\"op\":\"%s\"", case_id, ev_i++, op);
+    snprintf(tmp, sizeof tmp, "{\"case\":\"%s%s\",\"i\":%d,\"op\":\"%s\"", case_id, thr_tag, ev_i++, op);
     ev_raw(tmp);
 }
 static void ev_int(const char *k, long long v) {
@@ -226,7 +227,8 @@ static void dump_range(zckRange *r) {
 struct thr { pthread_t t; char path[512]; int id; };
 static void run_lines(FILE *f);
 static __thread int in_thread;
-static void *thr_main(void *a) { struct thr *t = a; FILE *f = fopen(t->path, "r"); in_thread = 1; if(f) { run_lines(f); fclose(f); } return NULL; }
+static void *thr_main(void *a) { struct thr *t = a; static __thread char tag[16]; snprintf(tag, sizeof tag, "/t%d", t->id); thr_tag = tag;
+    FILE *f = fopen(t->path, "r"); in_thread = 1; if(f) { run_lines(f); fclose(f); } return NULL; }
 
 /* ---------------------------------------------------------------- commands */
 #define A(i) (i < ntok ? tok[i] : "")
@@ -624,6 +626,24 @@ static void run_cmd(int ntok, char **tok) {
         for(int i = 0; i < n; i++) pthread_join(T[i].t, NULL);
         ev_begin("threads"); ev_int("n", n); ev_end();
     }
+    else if(!strcmp(op, "gsnap") || !strcmp(op, "gdiff")) {
+        /* gsnap <file>: remember the contents of the writable globals of the library objects; the file lists
+         * "name hexaddr size" per line (from nm on a -no-pie link).  gdiff: report the ones that changed. */
+        static char *gcopy[4096]; static char *gaddr[4096]; static size_t gsize[4096]; static char gname[4096][64]; static int gn;
+        if(!strcmp(op, "gsnap")) {
+            FILE *f = fopen(A(1), "r"); gn = 0; char nm[64]; unsigned long long ad, sz;
+            while(f && gn < 4096 && fscanf(f, "%63s %llx %llu", nm, &ad, &sz) == 3) {
+                if(sz == 0 || sz > (1 << 22)) continue;
+                snprintf(gname[gn], 64, "%s", nm); gaddr[gn] = (char *)(uintptr_t)ad; gsize[gn] = sz; free(gcopy[gn]); gcopy[gn] = malloc(sz); memcpy(gcopy[gn], gaddr[gn], sz); gn++;
+            }
+            if(f) fclose(f);
+            ev_begin("gsnap"); ev_int("n", gn); ev_end();
+        } else {
+            ev_begin("gdiff"); ev_raw(",\"changed\":["); int first = 1;
+            for(int i = 0; i < gn; i++) if(memcmp(gcopy[i], gaddr[i], gsize[i])) { char tmp[96]; snprintf(tmp, sizeof tmp, "%s\"%s\"", first ? "" : ",", gname[i]); ev_raw(tmp); first = 0; memcpy(gcopy[i], gaddr[i], gsize[i]); }
+            ev_raw("]"); ev_int("static_bufs", shim_static_bufs); ev_end();
+        }
+    }
     else if(!strcmp(op, "echo")) { ev_begin("echo"); ev_str("s", A(1)); ev_end(); }
     else { ev_begin("unknown"); ev_str("cmd", op); ev_end(); }
 }
@@ -649,6 +669,7 @@ static void run_lines(FILE *f) {
 int main(int argc, char **argv) {
     for(int i = 0; i < NSLOT; i++) { fds[i] = -1; sinks[i] = -1; }
     zck_set_log_level(ZCK_LOG_NONE);
+    shim_disabled = getenv("ZV_SHIM_OFF") != NULL;
     signal(SIGPIPE, SIG_IGN);
     struct sigaction sa = {0}; sa.sa_handler = segv_handler; sigemptyset(&sa.sa_mask); sa.sa_flags = SA_NODEFER;
     if(!getenv("VERIF_NO_SEGV_HANDLER")) { sigaction(SIGSEGV, &sa, NULL); sigaction(SIGBUS, &sa, NULL); }
